@@ -508,6 +508,21 @@ def h_u_call(w, st, rec):
     note_probes_utils(w, rec, args, out)
     if pre != post:
         w.violate("argument_modified", site, {"which": [i for i, (x, y) in enumerate(zip(pre, post)) if x != y]})
+    if out[0] == "ok" and hasattr(out[1], "__next__"):
+        # a lazy result (generator, filter, map, zip): it must not read the caller's storage after the call.
+        # Reference: the same call consumed at once; then the caller changes its arrays and consumes the first.
+        w.probes["lazy_result"] += 1
+        args2 = [build_arg(w, st, a) for a in rec["args"]]
+        kw2 = {k: build_arg(w, st, v) for k, v in rec.get("kw", {}).items()}
+        ref = w.call(lambda: list(f(*args2, **kw2)) if not rec.get("bykw") else list(f(**kw)))
+        for arr in arrays_of(owned):
+            scribble_array(arr, "fill")
+        late = w.call(lambda: list(out[1]))
+        if ref[0] != late[0] or (ref[0] == "ok" and digest(ref[1]) != digest(late[1])):
+            w.violate("result_aliases_argument", site, {"what": "a lazily evaluated result reads the caller's storage "
+                                                        "after the call returned"})
+        out = late
+        pre = post = []
     if out[0] == "ok":
         res_arrays = arrays_of(out[1])
         if any_alias(res_arrays, arrays_of(owned)):
@@ -516,7 +531,10 @@ def h_u_call(w, st, rec):
             w.violate("result_aliases_model", site, {"what": "returned storage shares memory with a live model"})
         if any(o is out[1] for o in owned if isinstance(o, (list, dict, set))):
             w.violate("result_aliases_argument", site, {"what": "the argument object itself was returned"})
-    if rec.get("arm") is None:
+    unseeded = "random_state" in rec.get("kw", {}) and rec["kw"]["random_state"] is None
+    if unseeded:
+        w.probes["utils.unseeded_call"] += 1
+    if rec.get("arm") is None and not unseeded:
         key = jkey({"fn": name, "args": rec["args"], "kw": rec.get("kw", {})})
         compare_history(w, st, key, rec, out, site)
         if key not in st.oblig and not any_ref(rec):
@@ -623,6 +641,11 @@ def h_scribble(w, st, rec):
                     e.b += 1.0
                     done = True
                     w.probes["scribble.in:ParamCallable"] += 1
+                elif how == "param" and hasattr(getattr(e, "__self__", None), "coefs"):
+                    e.__self__.coefs += 1.0          # the object behind a bound method
+                    e.__self__.b += 1.0
+                    done = True
+                    w.probes["scribble.in:bound_method_owner"] += 1
                 elif how == "param" and isinstance(e, ParamNoise):
                     e.params += 1.0
                     done = True
@@ -1466,7 +1489,8 @@ REQUIRED_PROBES = ["iv.do.non_source", "iv.shift.non_source", "iv.noise.non_sour
                    "op_after_failed_op_same_model", "natural_LinAlgError", "history.first_vs_later",
                    "history.aged_vs_twin", "sweep.fault_positions", "sweep.utils", "obs_law.checked", "obs_law.checked:anm", "obs_law.checked:nd", "buf.view", "gc.model_dropped",
                    "gc.model_id_reused", "two_models_from_one_caller_array", "model_from_generator_output", "buf.lower_rank",
-                   "buf.readonly_view", "buf.column_vector", "call.by_keyword",
+                   "buf.readonly_view", "buf.column_vector", "call.by_keyword", "scribble.in:bound_method_owner",
+                   "utils.unseeded_call",
                    "nd.check_valid"]
 
 
